@@ -282,11 +282,14 @@ func c20Irregular(n *c20Node, ctx int) bool { // ctx: 0 slot, 1 one pointer belo
 	return false
 }
 
-// expectPanic: does the description contain, in a converted position, a kind the converter rejects -- or, where NewWith
-// looks at the dynamic type, a nil pointer to a value-receiver Marshaler (MarshalValue is called through it)?
-func c20ExpectPanic(n *c20Node) bool { return c20ExpectPanicAt(n, 0) }
+// expectPanic: does the description contain, in a converted position, a kind the converter rejects?
+func c20ExpectPanic(n *c20Node) bool { return c20ExpectPanicAt(n, 0, false) }
 
-func c20ExpectPanicAt(n *c20Node, ctx int) bool {
+// nilMarshaler: trigger of known finding nil-marshaler-panics -- where NewWith looks at the dynamic type there is a nil
+// pointer to a value-receiver Marshaler (the pinned tree calls MarshalValue through it; notes/pending/C20-nil-marshaler.diff)
+func c20NilMarshaler(n *c20Node) bool { return c20ExpectPanicAt(n, 0, true) }
+
+func c20ExpectPanicAt(n *c20Node, ctx int, nilMar bool) bool {
 	down := func(ctx int) int {
 		if ctx == 0 {
 			return 1
@@ -295,14 +298,14 @@ func c20ExpectPanicAt(n *c20Node, ctx int) bool {
 	}
 	switch n.kind {
 	case "unsupported":
-		return true
+		return !nilMar
 	case "badmap":
-		return n.n > 0
+		return !nilMar && n.n > 0
 	case "ptr":
 		if n.isNil {
-			return n.nilTo == "marshal" && ctx == 0
+			return nilMar && n.nilTo == "marshal" && ctx == 0
 		}
-		return c20ExpectPanicAt(n.elems[0], down(ctx))
+		return c20ExpectPanicAt(n.elems[0], down(ctx), nilMar)
 	case "iface":
 		if n.isNil {
 			return false
@@ -311,21 +314,21 @@ func c20ExpectPanicAt(n *c20Node, ctx int) bool {
 		if ctx == 0 {
 			nc = 0
 		}
-		return c20ExpectPanicAt(n.elems[0], nc)
+		return c20ExpectPanicAt(n.elems[0], nc, nilMar)
 	case "marshal":
 		if n.ptrRecv {
 			ctx = down(ctx)
 		}
-		return ctx == 2 && c20ExpectPanicAt(n.under, 2)
+		return ctx == 2 && c20ExpectPanicAt(n.under, 2, nilMar)
 	case "slice", "map":
 		for _, c := range n.elems {
-			if c20ExpectPanicAt(c, 0) {
+			if c20ExpectPanicAt(c, 0, nilMar) {
 				return true
 			}
 		}
 	case "struct":
 		for i, c := range n.elems {
-			if n.exported[i] && c20ExpectPanicAt(c, 0) {
+			if n.exported[i] && c20ExpectPanicAt(c, 0, nilMar) {
 				return true
 			}
 		}
@@ -1196,6 +1199,11 @@ func c20CheckConversion(e *env, c *c20Case, resp []string) {
 	irregular := c20Irregular(c.n, 0)
 	expectPanic := c20ExpectPanic(c.n)
 	cj := c.json()
+	if c.panic != "" && c20NilMarshaler(c.n) && strings.Contains(c.panic, "called using nil") {
+		// the model describes the converter after notes/pending/C20-nil-marshaler.diff
+		e.res.Fail(hx.Violation{Kind: "oracle", What: "converting a nil pointer to a value-receiver Marshaler panicked", Case: cj, Observed: c.panic}, "nil-marshaler-panics")
+		return
+	}
 	if irregular {
 		e.res.Histogram["convert:a pointer to a data.Value is returned as it is (model OutOfModel, see probes)"]++
 		if resp != nil && resp[0] != "outofmodel" && resp[0] != "err" {
